@@ -26,14 +26,28 @@ func addMarkers(b Batch, sc *Scenario, prefix string) {
 	}
 }
 
-func c03Leaf(t *rapid.T, ctx *Ctx, sc *Scenario, prefix string) (*SegCase, error) {
-	b := GenBatch(t, sc, 6)
+func c03Leaf(t *rapid.T, ctx *Ctx, sc *Scenario, prefix string, fam int) (*SegCase, error) {
+	var b Batch
+	if fam == FamBlocks {
+		// 40..300 documents: merged stored blocks are crossed in the middle of an input
+		p := GenBlocks(t)
+		if rapid.Bool().Draw(t, prefix+":shortBlocks") {
+			p.N = rapid.IntRange(40, 127).Draw(t, prefix+":Nshort")
+		}
+		b = p.Batch(sc)
+	} else {
+		b = GenBatch(t, sc, 6)
+	}
 	addMarkers(b, sc, prefix)
 	seg, err := Build(b, sc.Norm, 1025)
 	if err != nil {
 		return nil, err
 	}
-	c := &SegCase{Seg: seg, Exp: Expect(b, sc.Norm.F), Docs: b, Mode: 1025, Desc: fmt.Sprintf("built{%s}", b)}
+	desc := b.String()
+	if fam == FamBlocks {
+		desc = fmt.Sprintf("blocks-with-markers{%d docs}", len(b))
+	}
+	c := &SegCase{Seg: seg, Exp: Expect(b, sc.Norm.F), Docs: b, Mode: 1025, Desc: fmt.Sprintf("built{%s}", desc)}
 	hold := rapid.IntRange(holdBuilt, holdFile).Draw(t, prefix+":hold")
 	if hold != holdBuilt {
 		if err := c.reload(ctx, hold); err != nil {
@@ -49,11 +63,24 @@ func uidOf(d *Doc) string { return d.Fields[len(d.Fields)-1].Value }
 func TestC03(t *testing.T) {
 	st := NewStats("C03", c03Rule)
 	defer st.Flush()
-	rapid.Check(t, func(t *rapid.T) {
+	rapid.Check(t, c03Prop(st, FamSmall))
+}
+
+func TestC03Blocks(t *testing.T) {
+	st := NewStats("C03Blocks", c03Rule)
+	defer st.Flush()
+	rapid.Check(t, c03Prop(st, FamBlocks))
+}
+
+func c03Prop(st *CaseStats, fam int) func(t *rapid.T) {
+	return func(t *rapid.T) {
 		ctx := &Ctx{}
 		defer ctx.Close()
 		sc := GenScenario(t)
 		k := rapid.IntRange(1, 4).Draw(t, "nIn")
+		if fam == FamBlocks {
+			k = rapid.IntRange(2, 3).Draw(t, "nInBlocks")
+		}
 		ins := make([]*SegCase, k)
 		drops := make([]*roaring.Bitmap, k)
 		segs := make([]segment.Segment, k)
@@ -65,11 +92,11 @@ func TestC03(t *testing.T) {
 			prefix := fmt.Sprintf("s%d", i)
 			if rapid.IntRange(0, 3).Draw(t, prefix+":premerged") == 0 {
 				// this input is itself the output of an earlier merge
-				a, err := c03Leaf(t, ctx, sc, prefix+"a")
+				a, err := c03Leaf(t, ctx, sc, prefix+"a", fam)
 				if err != nil {
 					t.Fatalf("%v", err)
 				}
-				b, err := c03Leaf(t, ctx, sc, prefix+"b")
+				b, err := c03Leaf(t, ctx, sc, prefix+"b", fam)
 				if err != nil {
 					t.Fatalf("%v", err)
 				}
@@ -80,7 +107,7 @@ func TestC03(t *testing.T) {
 				}
 				premerged = true
 			} else {
-				ins[i], err = c03Leaf(t, ctx, sc, prefix)
+				ins[i], err = c03Leaf(t, ctx, sc, prefix, fam)
 				if err != nil {
 					t.Fatalf("%v", err)
 				}
@@ -189,5 +216,5 @@ func TestC03(t *testing.T) {
 		}
 		nt := (k >= 2 && anyDrop && exp.N > 0) || anyEmpty || exp.N == 0
 		st.Record(desc, nt, labels...)
-	})
+	}
 }
